@@ -36,8 +36,21 @@ def loop_buffer_name(test):
     t = test
     if isinstance(t, ast.BoolOp) and isinstance(t.op, ast.And):
         t = t.values[0]
-    if isinstance(t, ast.Call) and isinstance(t.func, ast.Name) and t.func.id == "len" and len(t.args) == 1 and isinstance(t.args[0], ast.Name):
+
+    def is_len(e):
+        return isinstance(e, ast.Call) and isinstance(e.func, ast.Name) and e.func.id == "len" and len(e.args) == 1 and isinstance(e.args[0], ast.Name)
+
+    if is_len(t):
         return t.args[0].id
+    # len(NAME) > c, len(NAME) >= c, len(NAME) != 0, c < len(NAME), c <= len(NAME)  (c a non-negative constant): the test
+    # is false once the buffer is short enough, so a strictly decreasing len(NAME) is still a variant
+    if isinstance(t, ast.Compare) and len(t.ops) == 1:
+        l, op, r = t.left, t.ops[0], t.comparators[0]
+        const = lambda e: isinstance(e, ast.Constant) and isinstance(e.value, int) and e.value >= 0
+        if is_len(l) and const(r) and isinstance(op, (ast.Gt, ast.GtE, ast.NotEq)) and (not isinstance(op, ast.NotEq) or r.value == 0):
+            return l.args[0].id
+        if is_len(r) and const(l) and isinstance(op, (ast.Lt, ast.LtE, ast.NotEq)) and (not isinstance(op, ast.NotEq) or l.value == 0):
+            return r.args[0].id
     return None
 
 
@@ -54,7 +67,7 @@ def schema_check(node):
     """every assignment to the loop buffer inside the body (nested loops included) is NAME = NAME[expr:]"""
     x = loop_buffer_name(node.test)
     if x is None:
-        return False, "loop test is not len(NAME) [and ...]"
+        return False, "loop test is not len(NAME) [>= c] [and ...]"
     for s in node.body:
         for n in ast.walk(s):
             if isinstance(n, (ast.Assign, ast.AugAssign, ast.AnnAssign)):
